@@ -206,7 +206,7 @@ def native_replay(case):
     natives = {"$module": module}
     out = {"requires": [], "ensures": [], "raised": None}
     for r in c.requires:
-        out["requires"].append([r, native_eval.eval_clause(r, env, None, c.model, None, natives, strict=True)])
+        out["requires"].append([r, native_eval.eval_clause(r, env, None, c.model, None, natives, strict=True, tol=c.native_tol)])
     old_env = copy.deepcopy(env)
     pre_ids = native_eval.collect_ids(env.values())
     try:
@@ -219,7 +219,7 @@ def native_replay(case):
     env["result"] = result
     if out["raised"] is None:
         for e in c.ensures:
-            out["ensures"].append([e, native_eval.eval_clause(e, env, old_env, c.model, pre_ids, natives)])
+            out["ensures"].append([e, native_eval.eval_clause(e, env, old_env, c.model, pre_ids, natives, tol=c.native_tol)])
     out["violated"] = [t for t, v in out["ensures"] if v is False]
     if out["raised"] is not None and out["raised"] not in c.raises:
         out["violated"].append("no-exception:" + out["raised"])
